@@ -1,6 +1,7 @@
 """C02 — sniproxy: a connection only ever reaches the endpoint its SNI selects (DESIGN.md §7 C02)."""
 import json
 
+import code_tie
 import vlib
 
 META = {
@@ -29,10 +30,8 @@ META = {
 
 MODEL = ["theories/Sni/RouteCorr.vo"]
 PROOFS = ["theories/Props/C02.vo"]
-STATEMENT_FILES = ["theories/Props/C02.v", "theories/Sni/RouteGen.v", "theories/Sni/CodeRefine.v"]
-# Go bodies translated to Gallina on every run (gen/gotrans.go -> Gen/CodeSni.v) and proved equal to the model
-# for all inputs (Sni/CodeRefine.v, C02_code_*); net.ParseIP is a Section variable.
-SEMANTIC_TIE = ["sniproxy.isRejectedDomain"]
+STATEMENT_FILES = ["theories/Props/C02.v", "theories/Sni/RouteGen.v"]
+SEMANTIC_TIE = code_tie.functions("C02")   # Go bodies proved equal to the model (Props/C02Code.v)
 
 CODE = {"nolookup": 1, "err": 2, "home": 3, "notfound": 5, "forward": 6, "endpoint": 7}
 
@@ -315,8 +314,7 @@ def run(ck):
         ck.discharged = list(ck.obligations)
     if ck.thorough and proofs_ok:
         ck.coqchk(["Verif.Props.C02"])
-    ck.code_cex("Sni", force=not proofs_ok)
-    ck.coverage["semantic_tie"] = SEMANTIC_TIE
+    code_tie.run(ck, "C02")
 
     binp = ck.build_harness("c02")
     cases = []
@@ -414,8 +412,6 @@ def run(ck):
                     "harness c02 vs vm_compute of Sni/RouteCorr.v + e2e oracle)",
         trusted=["Coq 8.16.1 kernel + vm_compute",
                  "translator gen/sni_stream.go (isRejectedDomain steps, suffix table, hostConn/Server.dial order, bodies)",
-                 "translator gen/gotrans.go + Lib/GoLib.v (Go body -> Gallina, proved equal to the model for all "
-                 "inputs: %s)" % ", ".join(SEMANTIC_TIE),
                  "harness/cmd/c02 + harness/cmd/c01/e2e + sniproxy/verif_stream.go + checks/c02.py comparison",
                  "modelled not verified: sync.Mutex atomicity of the three tables, Go select, net.ParseIP (parameter)"],
         rule="seeded generation (splitmix64): route = a real ClientHello through hostConn into Server.dial over a name "
